@@ -361,6 +361,15 @@ theorem mul_broadcast_spec (a b : Fld K) (h : Gen.mulBothOne a.size b.size = fal
     simp [ha, hb, hs, Fld.ofBroadcast, Fld.broadcastTo]
   · by_cases hs : (decide (a0 = b0) && decide (a1 = b1)) = true <;> simp [ha, hb, hs, Fld.ofBroadcast]
 
+/-- **the branch bodies of `Field._mul_scalar`, regenerated (`data = self.data * other.data`, `offset = self.offset`: which
+operands are multiplied and whose offset is kept; else the empty product)**: for two one-element fields the model product
+`Fld.mul` is `mulScalarFlow`, the generated test selecting the generated product — squaring one operand or dropping a factor
+changes `Gen.mulScalarFactors` and breaks this -/
+theorem mul_scalar_flow_spec (a b : Fld K) (h : Gen.mulBothOne a.size b.size = true) : a.mul b = mulScalarFlow a b := by
+  simp only [Fld.mul, h, if_true, mulScalarFlow]; rfl
+example : ((mulScalarFlow (⟨⟨1, 1, fun _ _ => (3 : Int)⟩, 2, 2⟩ : Fld Int) ⟨⟨1, 1, fun _ _ => 5⟩, 2, 2⟩).map
+    fun p => (p.arr.get 0 0, p.o0, p.o1)) = some (15, 2, 2) ∧ Gen.mulBothOne 1 1 = true := ⟨rfl, rfl⟩
+
 /-- **the 0-d operand path of `_mul_broadcast`, regenerated with shapes that may be `()` (`Gen.mulBroadcastZ`: a shape is the
 triple (ndim, d0, d1), `()` = (0, 1, 1))**: whenever `Field.__mul__` sends the product to `_mul_array` (not both one-element), a
 0-d operand (one sample, what `Wavefront.__init__` creates) differs in shape from the other operand, is broadcast to its 2-D
